@@ -52,7 +52,7 @@ def crash_corpus(n, seed):
                                                 "topics": ["a", "b", "c"], "proj": False}, "ops": ops})
     # AtLeastOnce consumers draining a tail block with read_next: the persisted position must not lag
     # more than persist_every reads behind (C09)
-    for j, (pe, k) in enumerate([(2, 5), (3, 6), (2, 7), (3, 5)][:max(2, n // 12)]):
+    for j, (pe, k) in enumerate([(2, 5), (3, 6), (2, 7), (3, 5)][:max(4, n // 12)]):
         ops = [{"op": "append", "t": "a", "id": i + 1, "size": r.choice([64, 100, 128, 200])} for i in range(k)]
         ops += [{"op": "read", "t": "a", "ckpt": True} for _ in range(k - 1)]
         out.append({"id": "cwrn%d" % j, "cfg": {"backend": "fd" if j % 2 == 0 else "mmap", "mode": "alo", "pe": pe, "fsync": "ms200",
